@@ -410,6 +410,7 @@ pub fn check(scn: &Scenario, stats: &mut Stats) -> Vec<Violation> {
     // split side: take out exactly one error item per failed include, located on its directive
     let mut got: Vec<Key> = split.diags.iter().map(key).collect();
     let mut titles_at: Vec<(String, usize, &str)> = Vec::new();
+    let mut sites_with_error: Vec<(String, usize)> = Vec::new();
     for d in &failed {
         let rec = split.import_log.iter().skip(1).zip(&dirs).find(|(_, x)| x.file == d.file && x.line == d.line && !x.ok).map(|(r, _)| r.error.clone()).unwrap_or_default();
         let missing = resolve(dir_of(&d.file), &d.requested).is_none_or(|t| !scn.world.files.contains_key(&t));
@@ -425,7 +426,11 @@ pub fn check(scn: &Scenario, stats: &mut Stats) -> Vec<Violation> {
             Some(p) => {
                 got.remove(p);
                 stats.inc("include_errors_located");
+                sites_with_error.push((d.file.clone(), d.line));
             }
+            // a directive met again (its file is included twice) repeats the same item, which is
+            // reported once
+            None if sites_with_error.contains(&(d.file.clone(), d.line)) => {}
             None => {
                 out.push(viol(
                     "failed-include-reported-on-directive",
@@ -677,6 +682,7 @@ fn check_t2(scn: &Scenario, stats: &mut Stats) -> Vec<Violation> {
         })
         .collect();
     let mut got = split_items.clone();
+    let mut sites_with_error: Vec<(String, usize)> = Vec::new();
     for d in &failed {
         let is_include_error = |t: &str| ["IO Error", "File not found", "Cyclic dependency", "Unexpected error"].iter().any(|p| t.starts_with(p));
         let pos = got.iter().position(|k| k.0 == d.file && k.1 == d.line && k.4 == "Error" && is_include_error(&k.5));
@@ -684,7 +690,9 @@ fn check_t2(scn: &Scenario, stats: &mut Stats) -> Vec<Violation> {
             Some(p) => {
                 got.remove(p);
                 stats.inc("include_errors_located");
+                sites_with_error.push((d.file.clone(), d.line));
             }
+            None if sites_with_error.contains(&(d.file.clone(), d.line)) => {}
             None => {
                 out.push(viol("failed-include-reported-on-directive", "cli:no-error-on-directive".into(), format!("include of `{}` at {}:{} failed but no error is located on that line", d.requested, d.file, d.line + 1), &feats));
                 return out;
